@@ -41,6 +41,10 @@ func TestVerifBounded(t *testing.T) {
 	// maps with other key types
 	types = append(types, reflect.MapOf(reflect.TypeOf(0), reflect.TypeOf(0)), reflect.MapOf(reflect.TypeOf(verifBoundedStr("")), reflect.TypeOf(0)),
 		reflect.MapOf(reflect.TypeOf(false), reflect.TypeOf("")))
+	// a few shapes of depth 3: pointers to containers as elements of containers
+	for _, inner := range []reflect.Type{reflect.TypeOf([]int(nil)), reflect.TypeOf(map[string]int(nil)), reflect.TypeOf([]string(nil))} {
+		types = append(types, reflect.MapOf(reflect.TypeOf(""), reflect.PtrTo(inner)), reflect.SliceOf(reflect.PtrTo(inner)), reflect.PtrTo(reflect.SliceOf(reflect.PtrTo(inner))))
+	}
 	tags := []string{`json:"a"`, `json:"a,optional"`, `json:"a,default=1"`, `json:"a,string"`, `json:"a,options=1|2,optional"`}
 
 	leaves := []string{`1`, `-1`, `1.5`, `300`, `1e400`, `"1"`, `"x"`, `"1s"`, `""`, `true`, `null`}
